@@ -1,6 +1,7 @@
 (* Property C07 -- an EQL query translated to SQL selects the same entities as in-memory evaluation.
-   Only statements, each closed by [exact].  Model: Orm/EqlToSql.v (translator) over Orm/SqlAlg.v (what the
-   statement means on SQLite -- compared, not proved); Spec: Orm/EqlToSqlSpec.v ([answers]).  Level: partial. *)
+   Only statements, each closed by [exact].  Model: Orm/EqlToSql.v (translator, tree after the C07 fix: commits
+   5ffa83c f1c6930 6b20ce1 6e7d0db 7e47af0 f599ad3) over Orm/SqlAlg.v (what the statement means on SQLite --
+   compared, not proved); Spec: Orm/EqlToSqlSpec.v ([answers]).  Level: partial. *)
 From Coq Require Import List ZArith Bool.
 From Krrood Require Import Base.Sx Orm.EqlToSqlSpec Orm.SqlAlg Orm.EqlToSql Orm.EqlToSqlProofs.
 Import ListNotations.
@@ -17,39 +18,64 @@ Theorem C07_the : forall sc q w s,
   translate sc q = TOk s -> f07 sc q w = true -> one_of (sem_res s (encode sc w)) = one_of (answers sc q w).
 Proof. exact the_agree. Qed.
 
-(* a query of the fragment (with at least one instance of the selected type) is accepted, hence answered as in memory *)
-Theorem C07_accepts : forall sc q w v root,
-  f07 sc q w = true -> q_vars q = [(v, root)] -> instances sc w root <> [] -> exists s, translate sc q = TOk s.
+(* every query of the fragment is accepted (the shape part of F07 alone decides this), hence answered as in memory *)
+Theorem C07_accepts : forall sc q w, f07 sc q w = true -> exists s, translate sc q = TOk s.
 Proof. exact f07_accepted. Qed.
 
-(* reject or agree: a condition containing a node kind the translator does not know (not_) never yields a statement *)
+(* reject or agree.  (1) a condition containing a node kind the translator does not know (not_) never yields a statement *)
 Theorem C07_reject_or_agree : forall sc q c,
   q_cond q = Some c -> has_not c = true -> forall s, translate sc q <> TOk s.
 Proof. exact not_never_answered. Qed.
+(* (2) an attribute of a variable other than the selected one is rejected (was C07-a: translated as the selected one) *)
+Theorem C07_rejects_othervar : forall sc q op v ch lit,
+  q_cond q = Some (CCmp op (OAttr v ch) (OLit lit)) -> v <> q_sel q -> translate sc q = TReject.
+Proof. exact rejects_othervar. Qed.
+Theorem C07_rejects_othervar_attr : forall sc sel root st v ch, v <> sel -> tattr sc sel root st v ch = RReject.
+Proof. exact tattr_othervar. Qed.
+(* (3) a relationship-valued operand against a plain literal / in a literal list is rejected (was C07-c) *)
+Theorem C07_rejects_rel_literal : forall sc q op v ch lit,
+  q_cond q = Some (CCmp op (OAttr v ch) (OLit lit)) -> is_rel sc (q_vars q) (OAttr v ch) = true -> translate sc q = TReject.
+Proof. exact rejects_rel_literal. Qed.
+Theorem C07_rejects_rel_in_list : forall sc q v ch cs,
+  q_cond q = Some (CContains (OList cs) (OAttr v ch)) -> is_rel sc (q_vars q) (OAttr v ch) = true -> translate sc q = TReject.
+Proof. exact rejects_rel_in_list. Qed.
+(* (4) an attribute-equality join of two variables of the selected type is rejected (was C07-g) *)
+Theorem C07_rejects_selfjoin : forall sc q v1 ch1 v2 ch2 root a1 a2 t1 t2,
+  q_cond q = Some (CCmp OEq (OAttr v1 ch1) (OAttr v2 ch2)) -> v1 <> v2 ->
+  assoc (q_sel q) (q_vars q) = Some root -> assoc v1 (q_vars q) = Some root -> assoc v2 (q_vars q) = Some root ->
+  last_of ch1 = Some a1 -> last_of ch2 = Some a2 ->
+  field_kind sc root a1 = Some (FRel t1) -> field_kind sc root a2 = Some (FRel t2) ->
+  translate sc q = TReject.
+Proof. exact rejects_selfjoin. Qed.
+(* (5) <, <=, >, >= against the literal None is never answered (was C07-f) *)
+Theorem C07_rejects_none_order : forall sc q op v ch,
+  q_cond q = Some (CCmp op (OAttr v ch) (OLit VNull)) -> is_eqne op = false -> forall s, translate sc q <> TOk s.
+Proof. exact rejects_none_order. Qed.
 
-(* outside F07 the faithful model does NOT meet the property; one witness per excluded class *)
-Theorem C07_refuted_othervar :   (* a second variable is translated as the selected one *)
-  model_res Wit.sc Wit.q_othervar Wit.w = Some (Ok [1]) /\ answers Wit.sc Wit.q_othervar Wit.w = Ok [1; 2].
-Proof. exact refuted_othervar. Qed.
-Theorem C07_refuted_null :       (* None: NULL comparison drops the row; Python: None != 1 holds, None < 0 raises *)
+(* outside F07 the faithful model does NOT meet the property; one witness per open class *)
+Theorem C07_refuted_null :         (* None: NULL comparison drops the row; Python: None != 1 holds, None < 0 raises *)
   (model_res Wit.sc Wit.q_null_ne Wit.w = Some (Ok []) /\ answers Wit.sc Wit.q_null_ne Wit.w = Ok [3]) /\
   (model_res Wit.sc Wit.q_null_lt Wit.w = Some (Ok []) /\ answers Wit.sc Wit.q_null_lt Wit.w = Err TypeErr).
 Proof. exact refuted_null. Qed.
-Theorem C07_refuted_fk_literal : (* a relationship-valued operand is its foreign key *)
-  model_res Wit.sc Wit.q_fk Wit.w = Some (Ok [6]) /\ answers Wit.sc Wit.q_fk Wit.w = Ok [].
-Proof. exact refuted_fk_literal. Qed.
-Theorem C07_refuted_like :       (* contains(column, str) becomes LIKE: case-insensitive, % and _ are wildcards *)
-  model_res Wit.sc Wit.q_like Wit.w = Some (Ok [7]) /\ answers Wit.sc Wit.q_like Wit.w = Ok [].
-Proof. exact refuted_like. Qed.
-Theorem C07_refuted_varoperand : (* a bare variable operand is handed to the driver as a parameter: execution fails *)
-  model_res Wit.sc Wit.q_varop Wit.w = Some (Err TypeErr) /\ answers Wit.sc Wit.q_varop Wit.w = Ok [5; 6].
-Proof. exact refuted_varoperand. Qed.
-Theorem C07_refuted_noneorder :  (* <,<=,>,>= against None: SQLAlchemy's ArgumentError escapes, not an EQLTranslationError *)
-  translate Wit.sc Wit.q_noneorder = TCrash.
-Proof. exact refuted_noneorder. Qed.
-Theorem C07_refuted_selfjoin :   (* attribute-equality join of two variables of the selected type: statement cannot be compiled *)
-  model_res Wit.sc Wit.q_selfjoin Wit.w = Some (Err TypeErr) /\ answers Wit.sc Wit.q_selfjoin Wit.w = Ok [5; 6].
-Proof. exact refuted_selfjoin. Qed.
+Theorem C07_refuted_strtruth :     (* a str column used as condition: WHERE name is false for 'Body1', bool('Body1') is True *)
+  model_res Wit.sc Wit.q_strtruth Wit.w = Some (Ok []) /\ answers Wit.sc Wit.q_strtruth Wit.w = Ok [7; 8; 9].
+Proof. exact refuted_strtruth. Qed.
+Theorem C07_refuted_eqjoin_twice : (* the second equality join onto an already joined table is dropped silently *)
+  model_res Wit.sc Wit.q_eqjoin_twice Wit.w = model_res Wit.sc Wit.q_eqjoin_once Wit.w /\
+  model_res Wit.sc Wit.q_eqjoin_twice Wit.w = Some (Ok [10; 11]) /\ answers Wit.sc Wit.q_eqjoin_twice Wit.w = Ok [11].
+Proof. exact refuted_eqjoin_twice. Qed.
+Theorem C07_refuted_valueeq :      (* related entities are compared by foreign key (identity), Python compares by __eq__ (value) *)
+  model_res Wit.sc Wit.q_valueeq Wit.w = Some (Ok []) /\ answers Wit.sc Wit.q_valueeq Wit.w = Ok [10].
+Proof. exact refuted_valueeq. Qed.
+
+(* regression: the witnesses of the repaired classes C07-a, -c, -e, -f, -g are rejected, C07-d agrees *)
+Example C07_fixed_witnesses :
+  translate Wit.sc Wit.q_othervar = TReject /\ translate Wit.sc Wit.q_fk = TReject /\
+  translate Wit.sc Wit.q_varop = TReject /\ translate Wit.sc Wit.q_noneorder = TReject /\
+  translate Wit.sc Wit.q_selfjoin = TReject /\
+  (model_res Wit.sc Wit.q_like Wit.w = Some (Ok []) /\ answers Wit.sc Wit.q_like Wit.w = Ok []) /\
+  (model_res Wit.sc Wit.q_like2 Wit.w = Some (Ok [7; 8]) /\ answers Wit.sc Wit.q_like2 Wit.w = Ok [7; 8]).
+Proof. exact fixed_witnesses. Qed.
 
 (* non-vacuity: a query with two relationship paths, and/or and an attribute-attribute comparison is in F07, accepted, non-trivial *)
 Example C07_nonvacuous :
@@ -61,10 +87,13 @@ Print Assumptions C07_agree.
 Print Assumptions C07_the.
 Print Assumptions C07_accepts.
 Print Assumptions C07_reject_or_agree.
-Print Assumptions C07_refuted_othervar.
+Print Assumptions C07_rejects_othervar.
+Print Assumptions C07_rejects_othervar_attr.
+Print Assumptions C07_rejects_rel_literal.
+Print Assumptions C07_rejects_rel_in_list.
+Print Assumptions C07_rejects_selfjoin.
+Print Assumptions C07_rejects_none_order.
 Print Assumptions C07_refuted_null.
-Print Assumptions C07_refuted_fk_literal.
-Print Assumptions C07_refuted_like.
-Print Assumptions C07_refuted_varoperand.
-Print Assumptions C07_refuted_noneorder.
-Print Assumptions C07_refuted_selfjoin.
+Print Assumptions C07_refuted_strtruth.
+Print Assumptions C07_refuted_eqjoin_twice.
+Print Assumptions C07_refuted_valueeq.
